@@ -311,6 +311,72 @@ def run(chk: lib.Check):
                             chk.violation(f"{what}-raises:bare:{cls}:{type(ex).__name__}", f"{what}() of a freshly created {cls} (no attributes set yet, created through "
                                           f"{type(o).__name__}.{name}.create({hint!r})) raised {ex!r}", {"model": spec0["name"], "owner": o.uuid, "relation": name, "hint": hint, "what": what})
         del model
+    # ---------------- models in states that edit histories reach (objects deleted, relations that lost an end, half-built objects), saved
+    # and loaded again: every read of every object and every rendering still leaves the bytes alone
+    import histories as _H
+    for spec0 in specs[:1]:
+        for rnd in range(2 if quick else 6):
+            with lib.scratch("c11h-") as tmp:
+                src = pathlib.Path(spec0["path"]).parent
+                shutil.copytree(src, tmp / "m", ignore=shutil.ignore_patterns("*.license"))
+                aird = tmp / "m" / pathlib.Path(spec0["path"]).name
+                kw = {a: b for a, b in spec0.items() if a not in ("name", "path")}
+                try:
+                    m0 = capellambse.MelodyModel(str(aird), **kw)
+                    hr = _H.HistoryRunner(m0, rng)
+                    for _ in range(60):
+                        hr.step()
+                    # targeted: objects that relations point AT are deleted (the relation elements stay behind without that end)
+                    for _ in range(12):
+                        try:
+                            hr.op_delete_linked() if rng.random() < 0.5 else hr.op_reqrel_target_delete()
+                        except Exception:  # noqa: BLE001  refused deletions are part of the history
+                            pass
+                    m0.save()
+                    del m0
+                    model = capellambse.MelodyModel(str(aird), **kw)
+                except Exception as ex:  # noqa: BLE001
+                    stats[f"history-state-skipped:{type(ex).__name__}"] += 1
+                    continue
+                base = fingerprint(model)
+                n_read = 0
+                for p_, tree_ in model._loader.trees.items():
+                    if p_.suffix not in graph.SEMANTIC:
+                        continue
+                    for e in list(tree_.root.iter()):
+                        if not (isinstance(e.tag, str) and e.get("id") and e.get("href") is None):
+                            continue
+                        try:
+                            o = _obj.ModelElement.from_model(model, e)
+                        except Exception:  # noqa: BLE001
+                            continue
+                        for n in dir(o):
+                            if n.startswith("_") or n in PVMT_ATTRS:
+                                continue
+                            if isinstance(getattr(type(o), n, None), D.ReferenceSearchingAccessor):
+                                continue      # whole-model scans: covered above, too slow per object here
+                            try:
+                                getattr(o, n)
+                                n_read += 1
+                            except Exception:  # noqa: BLE001
+                                stats["history-state-getattr-raises"] += 1
+                        for fn in (lambda: repr(o), lambda: o._short_html_()):
+                            try:
+                                fn()
+                            except Exception as ex:  # noqa: BLE001
+                                stats[f"history-state-repr-raises:{type(ex).__name__}"] += 1
+                stats["history-state-attribute-reads"] += n_read
+                chk.note_case((spec0["name"], "history-state", rnd), nontrivial=True)
+                base = guard(model, base, f"reading {n_read} attributes of every object of a model saved after an edit history (round {rnd})",
+                             "reads-write:history-state:attributes", {"model": spec0["name"], "round": rnd})
+                for d in list(model.diagrams)[: (12 if quick else 200)]:
+                    try:
+                        d.render("svg")
+                        stats["history-state-render-ok"] += 1
+                    except Exception as ex:  # noqa: BLE001
+                        stats[f"history-state-render-raises:{type(ex).__name__}"] += 1
+                base = guard(model, base, f"rendering diagrams of a model saved after an edit history (round {rnd})", "render-writes:history-state", {"model": spec0["name"], "round": rnd})
+                del model
     # ---------------- configurations: the environment switches the getters consult at call time (CAPELLAMBSE_XHTML=1: descriptions are
     # returned as repaired XHTML) — every HTML-valued attribute of every object of EVERY available model, bytes compared per model
     import os as _os
